@@ -67,12 +67,21 @@ SameHeader(k, m, r, e) ==
   ELSE IF k \in {"ACAM", "ACAH"}       \* the driver's tokeniser drops empty tokens
     THEN [i \in DOMAIN Get(m, k) |-> SelectSeq(Get(m, k)[i], LAMBDA t : t # "")] = Get(r, k)
   ELSE Get(m, k) = Get(r, k)
+\* Headers that were already in the writer's map when the middleware ran (set earlier in the chain, by an outer middleware of this
+\* library, by a layer in front): Respond takes them as its last argument - the middleware appends to Vary and sets / replaces the
+\* others - and the result is compared with what the middleware handed on (the map at handler entry, or the final one when it
+\* answered itself). A header the model leaves as it found it must be found as it was.
+PreOf(e) == IF "preabs" \in DOMAIN e THEN e.preabs ELSE NoHdrs
+OutOf(e) == IF "mwout" \in DOMAIN e THEN e.mwout ELSE e.resp
 Conforms(e) ==
-  LET model == Respond(sem, e.dbg, AbsReq(e), NoHdrs)
-      real  == e.resp
+  LET pre   == PreOf(e)
+      model == Respond(sem, e.dbg, AbsReq(e), pre)
+      real  == OutOf(e)
   IN /\ model.handled = (e.invoked = 0)
      /\ (model.handled => model.status = real.status)
-     /\ \A k \in DOMAIN model.hdrs \cup DOMAIN real.hdrs : SameHeader(k, model.hdrs, real.hdrs, e)
+     /\ \A k \in DOMAIN model.hdrs \cup DOMAIN real.hdrs :
+           IF k \in DOMAIN pre /\ Get(model.hdrs, k) = pre[k] THEN Get(real.hdrs, k) = pre[k]
+           ELSE SameHeader(k, model.hdrs, real.hdrs, e)
 
 Names == Ev("Names") /\ UNCHANGED <<sem, pats, namesb, drift, stats>>
 Config == /\ Ev("Config")
@@ -82,7 +91,7 @@ Config == /\ Ev("Config")
           /\ UNCHANGED <<drift, stats>>
 Skip == /\ l <= Len(Trace) /\ Trace[l].ev \in {"Rejected", "Panic", "Hang", "LateChange", "Block", "EndBlock"} /\ l' = l + 1
         /\ UNCHANGED <<sem, pats, namesb, drift, stats>>
-Plain(e) == DOMAIN e.pre = {} /\ "layer" \notin DOMAIN e      \* nothing set earlier in the chain
+Plain(e) == TRUE      \* (formerly: only responses with nothing set earlier in the chain were compared)
 Serve == /\ Ev("Serve")
          /\ LET e == Trace[l] IN
             /\ drift' = IF Plain(e) /\ ~Conforms(e) THEN drift \cup {l} ELSE drift
